@@ -42,6 +42,10 @@ class QueuePeekable(Queue):
         self._wakeup_next(self._putters)
         return item
 
+    def contains_after_head(self, predicate) -> bool:
+        """True if an item queued behind the head satisfies the predicate."""
+        return any(predicate(item) for item in list(self._queue)[1:])
+
 
 if sys.version_info < (3, 10):
     class QueuePeekableBackwardCompatible(QueuePeekable):
